@@ -370,6 +370,78 @@ def quic_level_flights(ctx, thorough, r, only=None):
     ctx.notes["quic_level_flights"] = {"sequences": len(seqs), "illegal_completed": done_illegal}
 
 
+def quic_app_data_before_finished(ctx, seeds=(4100, 4101, 4102)):
+    """loss scenario: the client's Handshake packet(s) carrying its Finished are lost while
+    the 1-RTT packet with application data reaches the server.  The server's 1-RTT read
+    key must not exist before the client Finished verified, so the packet is undecryptable:
+    no stream data may be delivered to the application while the server's TLS engine is
+    still waiting for Finished"""
+    from aioquic.buffer import Buffer
+    from aioquic.quic.packet import pull_quic_header
+    from harness import sim as simmod
+
+    def short_header_part(data, cid_len):
+        """the datagram with every long-header (Initial / Handshake) packet removed"""
+        out, pos = b"", 0
+        while pos < len(data):
+            if not (data[pos] & 0x80):
+                out += data[pos:]
+                break
+            buf = Buffer(data=data[pos:])
+            hdr = pull_quic_header(buf, host_cid_length=cid_len)
+            n = hdr.packet_length
+            if n <= 0:
+                break
+            pos += n
+        return out
+
+    n = 0
+    for seed in seeds:
+        s = simmod.Sim(seed)
+        try:
+            s.connect()
+            c, sv = s.client.conn, s.server.conn
+            steps = 0
+            while s.pending and steps < 40 and not c._handshake_complete:
+                steps += 1
+                d = s.pending.pop(0)
+                s.now += 0.001
+                s.deliver(d)
+            if not c._handshake_complete:
+                continue
+            s.api(s.client, "send_stream_data", 0, b"application data sent right after the client finished", end_stream=False)
+            s.transmit(s.client)
+            held = [d for d in s.pending if d["src"] is s.client]
+            s.pending[:] = [d for d in s.pending if d["src"] is not s.client]
+            delivered = []
+            for d in held:
+                rest = short_header_part(d["data"], len(sv.host_cid))
+                if rest:
+                    d2 = dict(d, data=rest)
+                    delivered.append(rest.hex())
+                    s.now += 0.001
+                    s.deliver(d2)
+            n += 1
+            ctx.count(("quic-early-1rtt", seed), bool(delivered))
+            evs = [type(e).__name__ for _, e in s.server.events]
+            state = sv.tls.state.name
+            got_data = "StreamDataReceived" in evs
+            if got_data and (state != "SERVER_POST_HANDSHAKE" or "HandshakeCompleted" not in evs
+                             or evs.index("StreamDataReceived") < evs.index("HandshakeCompleted")):
+                ctx.witness(
+                    f"server delivered StreamDataReceived from a 1-RTT packet while its TLS engine is in {state} (the "
+                    f"client's Handshake packets with Finished were lost): the 1-RTT read key was installed before the "
+                    f"client Finished verified; server events: {evs}",
+                    {"kind": "quic-early-1rtt", "seed": seed, "delivered_1rtt_datagrams": delivered, "server_events": evs},
+                    {"oracle": "key-before-authentication", "level": "quic"})
+            if s.server.raised:
+                ctx.witness(f"server raised on an early 1-RTT packet: {s.server.raised}", {"kind": "quic-early-1rtt", "seed": seed},
+                            {"oracle": "quic-raise"})
+        finally:
+            s.close_taps()
+    ctx.notes["quic_early_1rtt"] = n
+
+
 def main(tier):
     ctx = core.Ctx("C11", tier)
     ok = regenerate(ctx)
@@ -395,6 +467,7 @@ def main(tier):
     def search():
         from harness import tlsrogue
         tlsrogue.run(ctx, full=True, label="rogue-server-search")
+        quic_app_data_before_finished(ctx)
     ctx.search = search
     if not ok:
         return ctx.finish()
@@ -413,6 +486,9 @@ def main(tier):
     bad += corr.flush("tls-machine/adversarial-flights")
     from harness import tlsrogue
     tlsrogue.genuine_dfs(ctx)           # repetitions (each message up to 2x), prefix-tree search on the real client
+    tlsrogue.rogue_content_dfs(ctx)     # rogue server varying ServerHello / EncryptedExtensions content
+    tlsrogue.key_release_oracle(ctx)    # every traffic secret only while processing its authenticating message
+    quic_app_data_before_finished(ctx)  # lost client Finished, 1-RTT packet arrives first
     quic_level_flights(ctx, thorough, rng.make("c11-quic"))
     ctx.notes["correspondence_mismatches"] = bad
     ctx.cov["exhaustive"] = True
@@ -440,7 +516,10 @@ def replay(path):
     rep = d.get("replay", {})
     kind = rep.get("kind")
     ctx = core.Ctx("replay", "quick")
-    if kind in ("rogue", "genuine"):
+    if kind == "quic-early-1rtt":
+        quic_app_data_before_finished(ctx, seeds=(rep["seed"],))
+        ws = ctx.witnesses
+    elif kind in ("rogue", "genuine", "rogue-content", "key-release"):
         ws = tlsrogue.replay(rep)
         if d.get("signature", {}).get("oracle") == "legal-flight-refused" and not _completes(rep):
             ws = [{"what": d["what"]}]
